@@ -123,6 +123,54 @@ SEARCH_CASES = {
 }
 
 
+# (D, C03) inputs that satisfy a spec with a COMPUTED REPETITION -- including inputs in which that repetition does not occur at
+# all (untaken alternative) -- must be accepted by the real evaluator of the search (string-level oracle)
+ACCEPT_CASES = {
+    "records_or_short": ('<start> ::= "s" <d> | <n> ":" <i>{int(<n>)}\n<d> ::= "0" | "7"\n<n> ::= "1" | "2" | "3"\n<i> ::= "a" | "b"\n',
+                         ["s7", "s0", "1:a", "2:ab", "3:aba", "2:a", "1:ab"],
+                         lambda o: o in ("s7", "s0") or (o[0] in "123" and o[1] == ":" and len(o) - 2 == int(o[0]))),
+    "counted_with_where": ('<start> ::= <n> ":" <i>{int(<n>)} ";"\n<n> ::= "1" | "2"\n<i> ::= "a" | "b"\nwhere str(<start>).count("a") >= 1\n',
+                           ["1:a;", "2:ab;", "2:bb;", "1:b;", "2:a;"],
+                           lambda o: len(o) - 3 == int(o[0]) and o.count("a") >= 1),
+}
+
+
+def part_d(pid, tier):
+    from fandango.evolution.algorithm import Fandango as Search
+    from fandango.language.parse.parse import parse
+    evaluations, distinct, bad = 0, set(), []
+    for name, (text, inputs, oracle) in ACCEPT_CASES.items():
+        grammar, constraints = parse(text, use_stdlib=False, use_cache=False)
+        fan = Search(grammar=grammar, constraints=constraints, random_seed=0)
+        for w in inputs:
+            t = grammar.parse(w)
+            if t is None:
+                continue
+            want = bool(oracle(w))
+            evaluations += 1
+            distinct.add((name, w))
+            gen = fan.evaluator.evaluate_individual(t)
+            out = []
+            try:
+                while True:
+                    out.append(next(gen))
+            except StopIteration as stop:
+                fit = stop.value[0]
+            except Exception as e:          # noqa: BLE001
+                out, fit = [], f"raises {type(e).__name__}"
+            got = bool(out)
+            kind = None
+            if want and not got:
+                kind = "satisfying_input_is_not_accepted"
+            elif got and not want:
+                kind = "violating_input_is_accepted"
+            relevant = kind is not None and ((pid == "C03") == (kind == "satisfying_input_is_not_accepted"))
+            if relevant:
+                bad.append((name, w, kind, fit))
+                break
+    return evaluations, distinct, bad
+
+
 def part_c(pid, tier, seed):
     if pid != "C02":
         return 0, set(), []
@@ -231,6 +279,7 @@ def run(tier="quick", seed=0, pid="C02"):
         ea, bad_a = part_a(pid, tier)
         eb, distinct, bad_b, samples, undecided = part_b(pid, tier)
         ec, distinct_c, bad_c = part_c(pid, tier, seed)
+        ed, distinct_d, bad_d = part_d(pid, tier)
     violations = []
     for kind, combo, f in bad_a:
         violations.append({
@@ -247,14 +296,21 @@ def run(tier="quick", seed=0, pid="C02"):
             "name": "bounded:emitted_output_satisfies_spec", "witness": f"search={name};kind=emitted_output_violates_the_spec",
             "detail": f"search case {name}, seed {sd}: emitted output {o!r} violates the spec (string-level oracle)",
             "script": replay_script("c", pid, [name, sd])})
+    for name, w, kind, fit in bad_d:
+        violations.append({
+            "name": "bounded:accepted_iff_input_satisfies_spec", "witness": f"case={name};kind={kind}",
+            "detail": f"{kind}: spec {name}, input {w!r} (fitness {fit!r})",
+            "script": replay_script("d", pid, [name, w])})
     return {
-        "evaluations": ea + eb + ec, "distinct_nontrivial": (ea - 1) + len(distinct) + len(distinct_c),
+        "evaluations": ea + eb + ec + ed, "distinct_nontrivial": (ea - 1) + len(distinct) + len(distinct_c) + len(distinct_d),
         "rule": (f"{pid}: (A) every list of up to {4 if tier == 'quick' else 6} stub constraints from 5 behaviours (satisfied 1/1, 3/3; unsatisfied 0/1, 3/4; "
                  "raising) through the real Evaluator._evaluate_constraints; (B) 6 sets of 2-3 hard constraints x the words of two small "
                  "grammars through the real spec reader and Evaluator.evaluate_individual against the reference evaluator of bounded/c07; "
                  "(C, C02 only) 3 specs (computed repetition + where, helper that raises for one value, length prefix) through the real "
                  "Fandango.fuzz, 2 (8) seeds x 30 solutions, every emitted output judged by a string-level oracle; "
-                 "distinct = distinct non-empty stub lists + distinct (constraint set, word) + distinct (search case, output)"),
+                 "(D) inputs of two specs with computed repetitions (incl. inputs in which the repetition does not occur) through the search's "
+                 "own evaluator, accepted iff a string-level oracle says they satisfy the spec; "
+                 "distinct = distinct non-empty stub lists + distinct (constraint set, word) + distinct (search case, output) + distinct (case, input)"),
         "bound": "lists of at most 4 (6 thorough) stubs; two grammars, words up to 9 atoms", "samples": samples,
         "violations": violations, "undecided": undecided, "wall_s": round(time.time() - t0, 1),
     }
@@ -294,6 +350,22 @@ def replay(part, pid, data):
             return 1
         print("not reproduced")
         return 0
+    if part == "d":
+        name, w = data
+        saved = dict(ACCEPT_CASES)
+        ACCEPT_CASES.clear()
+        ACCEPT_CASES[name] = (saved[name][0], [w], saved[name][2])
+        try:
+            _, _, bad = part_d(pid, "quick")
+        finally:
+            ACCEPT_CASES.clear()
+            ACCEPT_CASES.update(saved)
+        print("spec:\n" + saved[name][0])
+        for b in bad:
+            print("VIOLATION reproduced:", b)
+        if not bad:
+            print("not reproduced")
+        return 1 if bad else 0
     if part == "c":
         name, sd = data
         text, oracle = SEARCH_CASES[name]
